@@ -100,6 +100,23 @@ def analyse_wrapper(fn, sp_name):
             raised |= tnt(n.test)
         if isinstance(n, ast.Assert):
             raised |= tnt(n.test)
+    # parameters handed over *unmodified*: the argument expression is the bare parameter name, the
+    # parameter is never re-bound in the wrapper, and no enclosing nested function shadows it
+    stored = {n.id for n in ast.walk(fdef) if isinstance(n, ast.Name) and isinstance(n.ctx, (ast.Store, ast.Del))}
+    shadow = set()
+    for n in ast.walk(fdef):
+        if isinstance(n, (ast.FunctionDef, ast.Lambda)) and n is not fdef and any(m is call for m in ast.walk(n)):
+            a = n.args
+            shadow |= {x.arg for x in a.posonlyargs + a.args + a.kwonlyargs} | \
+                ({a.vararg.arg} if a.vararg else set()) | ({a.kwarg.arg} if a.kwarg else set())
+    ident = set()
+    for i, a in enumerate(call.args):
+        if isinstance(a, ast.Name) and a.id in params and a.id not in stored | shadow:
+            ident.add(a.id)
+    for kw in call.keywords:
+        if isinstance(kw.value, ast.Name) and kw.value.id in params and kw.value.id not in stored | shadow:
+            ident.add(kw.value.id)
+    analyse_wrapper.identity[fn.__name__] = sorted(ident)
     table = []
     for p in params:
         if reach[p]:
@@ -111,10 +128,40 @@ def analyse_wrapper(fn, sp_name):
     return table
 
 
+analyse_wrapper.identity = {}
+
+
 def static_table():
     from scico import solver
     return {"minimize": analyse_wrapper(solver.minimize, "minimize"),
             "minimize_scalar": analyse_wrapper(solver.minimize_scalar, "minimize_scalar")}
+
+
+def mutable_globals_read():
+    """Module-level mutable objects (dict/list/set/bytearray) of scico.solver that minimize /
+    minimize_scalar can read, directly or through module-level helper functions they call.  The
+    Coq model of the wrappers is a pure function of the arguments: any such object is hidden
+    state through which one call could influence the next."""
+    import types
+    from scico import solver
+    seen, todo, hits = set(), ["minimize", "minimize_scalar"], []
+    while todo:
+        name = todo.pop()
+        if name in seen:
+            continue
+        seen.add(name)
+        fn = getattr(solver, name, None)
+        if not isinstance(fn, types.FunctionType) or fn.__module__ != solver.__name__:
+            continue
+        tree = ast.parse(textwrap.dedent(inspect.getsource(fn)))
+        for nm in sorted(_names(tree)):
+            if nm in vars(solver):
+                v = vars(solver)[nm]
+                if isinstance(v, (dict, list, set, bytearray)):
+                    hits.append(f"{name} -> {nm} ({type(v).__name__})")
+                elif isinstance(v, types.FunctionType) and v.__module__ == solver.__name__:
+                    todo.append(nm)
+    return sorted(set(hits))
 
 
 def table_to_coq(tab):
@@ -126,10 +173,13 @@ def table_to_coq(tab):
             else:
                 dd = "Rejected" if d == "R" else "Dropped"
             ents.append(f'mk_kw "{f}" "{p}" {dd}')
+    idt = [f'("{f}", "{p}")' for f in tab for p in analyse_wrapper.identity.get(f, [])]
     return ("(* generated by vf/props/C18.py from scico/solver.py -- do not edit *)\n"
             "From Coq Require Import List String.\nFrom SV Require Import C18.KwTable.\n"
             "Import ListNotations.\nOpen Scope string_scope.\n"
-            "Definition kw_table : list kwent :=\n " + coq_list(ents, ";\n  ") + ".\n")
+            "Definition kw_table : list kwent :=\n " + coq_list(ents, ";\n  ") + ".\n"
+            "(* parameters whose value reaches SciPy unmodified (bare name at the call, never re-bound) *)\n"
+            "Definition kw_identity : list (string * string) :=\n " + coq_list(idt, ";\n  ") + ".\n")
 
 
 def gradient_methods():
@@ -675,43 +725,287 @@ def check_refuted(ctx):
 
 # ------------------------------------------------------------------ minimize_scalar differential
 
+SCALAR_HEADER = """From Coq Require Import List Bool Arith QArith.
+From SV Require Import C18.Containers C18.Exec.
+Import ListNotations.
+"""
+
+
+def _floats(t):
+    return None if t is None else [float(np.asarray(v).item()) for v in t]
+
+
+def gen_scalar_case(rng, forced=None):
+    """One call of minimize_scalar: objective family, method, interval tuple, tol, options, args."""
+    import math
+    fam = rng.choice(["poly", "cos", "cos"]) if forced is None else "cos"
+    a = rng.randint(-8, 8) / 4.0
+    b = rng.randint(1, 6) / 2.0
+    sh = rng.randint(-4, 4) / 4.0
+
+    def val(t):          # the objective (python floats), args = (sh,)
+        u = t - a - sh
+        return b * u * u + u ** 4 if fam == "poly" else math.cos(u) + 0.01 * (u - 1.0) ** 2
+    kind = forced or rng.choice(["none", "two", "three", "three", "invalid3", "bounded", "bounded"])
+    c = {"family": fam, "a": a, "b": b, "args": [sh], "kind": kind, "np_scalars": rng.random() < 0.3}
+    if kind == "bounded":
+        c["method"] = "bounded"
+        lo = a + sh + rng.choice([-2.0, 0.5, 6.0])
+        c["bounds"] = [lo, lo + rng.choice([3.0, 7.0])]
+    else:
+        c["method"] = rng.choice(["brent", "golden"])
+        if kind == "two":
+            x0 = a + sh + rng.randint(-24, 24) / 4.0
+            c["bracket"] = [x0, x0 + rng.choice([0.5, 1.0, 2.0])]
+        elif kind in ("three", "invalid3"):
+            # a valid bracket around a local minimum that is NOT the one a downhill search from its
+            # end points finds (cos family: minima near a+sh+pi(2k+1)); or an invalid triple
+            k = rng.choice([-2, 1, 2, 3]) if fam == "cos" else 0
+            m = a + sh + (math.pi * (2 * k + 1) if fam == "cos" else 0.0)
+            xa, xb, xc = m - rng.choice([1.5, 1.75]), m + rng.choice([-0.25, 0.25]), m + rng.choice([1.5, 2.0])
+            xa, xb, xc = [round(t * 8) / 8.0 for t in (xa, xb, xc)]
+            if kind == "invalid3":
+                xb = xc - 0.125 if val(xc - 0.125) > min(val(xa), val(xc)) else xa + 0.125
+                xa, xb, xc = sorted((xa, xb, xc))
+            c["bracket"] = [xa, xb, xc]
+    if rng.random() < 0.5 and c["method"] != "bounded":
+        c["tol"] = rng.choice([1e-3, 1e-6])
+    if rng.random() < 0.5:
+        c["options"] = {"maxiter": rng.choice([3, 50, 200])}
+    return c
+
+
+def run_scalar_case(c):
+    """-> dict(received=..., direct=..., wrapper=...) for one call through the recording scipy.optimize."""
+    import scipy.optimize as spo
+    import jax.numpy as jnp
+    import scico.numpy as snp
+    from scico import solver
+    a, b, fam = c["a"], c["b"], c["family"]
+
+    def fj(t, s):
+        u = t - a - s
+        return snp.array(b * u * u + u ** 4) if fam == "poly" else snp.array(jnp.cos(u) + 0.01 * (u - 1.0) ** 2)
+
+    def conv(t):
+        return tuple(np.float64(v) for v in t) if c["np_scalars"] else tuple(t)
+    kw = {"method": c["method"], "args": tuple(c["args"])}
+    for k in ("bracket", "bounds"):
+        if k in c:
+            kw[k] = conv(c[k])
+    for k in ("tol", "options"):
+        if k in c:
+            kw[k] = c[k]
+    out = {"passed": {k: (_floats(v) if k in ("bracket", "bounds") else v) for k, v in kw.items()}}
+    with np.errstate(all="ignore"):
+        try:
+            d = spo.minimize_scalar(lambda t, *aa: fj(t, *aa).item(), **kw)
+            out["direct"] = {"x": float(d.x), "nfev": int(d.nfev), "success": bool(d.success), "keys": sorted(d.keys())}
+        except Exception as e:     # noqa: BLE001
+            out["direct"] = {"exception": type(e).__name__}
+        with patched_spopt() as px:
+            try:
+                w = solver.minimize_scalar(fj, **kw)
+                out["wrapper"] = {"x": float(w.x), "nfev": int(w.nfev), "success": bool(w.success), "keys": sorted(w.keys())}
+            except Exception as e:     # noqa: BLE001
+                out["wrapper"] = {"exception": type(e).__name__}
+            calls = [dd for n, dd in px.calls if n == "minimize_scalar"]
+    if calls:
+        r = calls[0]
+        out["received"] = {k: (_floats(r.get(k)) if k in ("bracket", "bounds") else
+                               (list(r.get(k)) if k == "args" else r.get(k)))
+                           for k in ("bracket", "bounds", "method", "tol", "options", "args")}
+    return out
+
+
+def scalar_verdict(c, o):
+    """None if the call was transparent, else (what, expected, observed)."""
+    p = o["passed"]
+    exp = {"bracket": p.get("bracket"), "bounds": p.get("bounds"), "method": p["method"], "tol": p.get("tol"),
+           "options": p.get("options"), "args": list(p["args"])}
+    if "received" in o and o["received"] != exp:
+        diff = {k: [exp[k], o["received"][k]] for k in exp if exp[k] != o["received"][k]}
+        k = sorted(diff)[0]
+        return (f"minimize_scalar does not hand '{k}' to scipy.optimize.minimize_scalar as passed "
+                "(value / tuple arity changed)", exp, o["received"])
+    if "received" not in o and "exception" not in o["direct"]:
+        return ("minimize_scalar raises where scipy.optimize.minimize_scalar succeeds", o["direct"], o["wrapper"])
+    if ("exception" in o["direct"]) != ("exception" in o["wrapper"]) or \
+            ("exception" in o["direct"] and o["direct"]["exception"] != o["wrapper"]["exception"]):
+        return ("minimize_scalar does not reject an argument exactly as scipy.optimize.minimize_scalar rejects it",
+                o["direct"], o["wrapper"])
+    if "exception" not in o["direct"]:
+        d, w = o["direct"], o["wrapper"]
+        if abs(w["x"] - d["x"]) > 1e-9 * max(1.0, abs(d["x"])) or w["nfev"] != d["nfev"] or w["success"] != d["success"] \
+                or w["keys"] != d["keys"]:
+            return ("minimize_scalar result differs from scipy.optimize.minimize_scalar", d, w)
+    return None
+
+
 def check_scalar(ctx):
+    """minimize_scalar: what SciPy receives must be what the caller passed (bracket of two or
+    three points, bounds, method, tol, options, args); results and rejections as SciPy's."""
+    cases = [gen_scalar_case(ctx.rng, forced=k) for k in ("three", "three", "invalid3", "two", "bounded")]
+    cases += [gen_scalar_case(ctx.rng) for _ in range(ctx.n(19, 150))]
+    tuples, tmeta = [], []
+    for c in cases:
+        o = run_scalar_case(c)
+        inp = {"function": "minimize_scalar", "case": c}
+        ctx.count("scalar:" + c["kind"], inp)
+        v = scalar_verdict(c, o)
+        if v:
+            ctx.violation("minimize_scalar", v[0], inp, expected=v[1], observed=v[2],
+                          oracle="recording scipy.optimize / direct SciPy call / C18_forwarded_values_unmodified")
+        if "received" in o:
+            for k in ("bracket", "bounds"):
+                if o["passed"].get(k) is not None and o["received"].get(k) is not None:
+                    tuples.append(f"({coq_list([qlit(t) for t in o['passed'][k]])}, {coq_list([qlit(t) for t in o['received'][k]])})")
+                    tmeta.append((inp, k, o))
+    if tuples:
+        body = "Definition tc := " + coq_list(tuples, ";\n ") + ".\nEval vm_compute in (bad_idx tuple_case_ok tc 0%nat)."
+        for idx in parse_eval_nat_list(coq_eval_shards("C18_scalar", SCALAR_HEADER, [body])[0]):
+            inp, k, o = tmeta[idx]
+            ctx.violation("minimize_scalar", f"minimize_scalar does not hand '{k}' to scipy.optimize.minimize_scalar as passed "
+                          "(value / tuple arity changed)", inp, expected=o["passed"], observed=o["received"],
+                          oracle="C18_forwarded_values_unmodified (identity on the tuple), compared inside Coq")
+
+
+# ------------------------------------------------------------------ call histories (same objective object)
+
+HIST_SHAPES = {"r": [[2], [3], [2, 2], [1, 3], [4]], "c": [[1], [2], [1, 2]]}
+
+
+def hist_np(v, a):
+    """The history objective on the flattened real vector, with gradient (numpy, float64)."""
+    sh, sc = a if a else (0.25, 1.0)
+    idx = np.arange(v.size)
+    w, c = 1.0 + (idx % 3) * 0.5, sh + 0.5 * (idx % 2)
+    return float(sc * np.sum(w * (v - c) ** 2)), 2 * sc * w * (v - c)
+
+
+def make_hist_objective(seen):
+    import jax.numpy as jnp
+
+    def f(x, *a):
+        seen.append(str(x.dtype))                       # runs whenever the objective is (re)traced
+        u = jnp.concatenate([jnp.real(x).ravel(), jnp.imag(x).ravel()]) if jnp.iscomplexobj(x) else x.ravel()
+        sh, sc = a if a else (0.25, 1.0)
+        idx = jnp.arange(u.size)
+        return sc * jnp.sum((1.0 + (idx % 3) * 0.5) * (u - sh - 0.5 * (idx % 2)) ** 2)
+    return f
+
+
+def gen_history(rng, forced=None):
+    if forced:
+        return forced
+    n = rng.randint(3, 5)
+    fam = rng.choice(["r", "r", "c"])
+    shape = rng.choice(HIST_SHAPES[fam])
+    h = []
+    for i in range(n):
+        if rng.random() < 0.3:
+            shape = rng.choice(HIST_SHAPES[fam])
+        kind = rng.choice(["f32", "f64"] if fam == "r" else ["c64", "c128"])
+        method = rng.choice(["L-BFGS-B", "BFGS", "CG", "Nelder-Mead", "Powell", "L-BFGS-B"])
+        args = [rng.randint(-4, 4) / 4.0, rng.randint(1, 4) / 2.0] if fam == "r" and rng.random() < 0.4 else []
+        h.append({"kind": kind, "shape": shape, "method": method, "args": args,
+                  "x0": [rng.randint(-8, 8) / 4.0 for _ in range(int(np.prod(shape)) * (2 if fam == "c" else 1))]})
+    return h
+
+
+def forced_histories(rng):
+    def call(kind, shape, method, args=()):
+        n = int(np.prod(shape)) * (2 if kind.startswith("c") else 1)
+        return {"kind": kind, "shape": shape, "method": method, "args": list(args),
+                "x0": [rng.randint(-8, 8) / 4.0 for _ in range(n)]}
+    return [
+        [call("f32", [3], "L-BFGS-B"), call("f64", [3], "L-BFGS-B"), call("f32", [3], "Nelder-Mead"), call("f64", [3], "Nelder-Mead")],
+        [call("f64", [2, 2], "BFGS", (0.5, 1.5)), call("f32", [2, 2], "BFGS", (0.5, 1.5)), call("f64", [2, 2], "BFGS", (0.5, 1.5))],
+        [call("c64", [2], "CG"), call("c128", [2], "CG"), call("c64", [2], "Powell"), call("c128", [2], "Powell")],
+    ]
+
+
+def run_history(h, gm):
+    """Minimise ONE objective object along the history; per call: result vs the direct SciPy call
+    on the flattened float64 problem (as for a fresh call), precision of the function SciPy
+    receives, dtypes the objective was traced with.  -> list of (index, what, expected, observed)."""
     import scipy.optimize as spo
     import scico.numpy as snp
     from scico import solver
-    r = ctx.rng
-    for i in range(ctx.n(12, 60)):
-        a, b = r.randint(-8, 8) / 4.0, r.randint(1, 6) / 2.0
-        sh = r.randint(-4, 4) / 4.0
-        fj = lambda t, s: snp.array(b * (t - a - s) ** 2 + (t - a - s) ** 4)
-        fn = lambda t, s: b * (t - a - s) ** 2 + (t - a - s) ** 4
-        meth = r.choice(["brent", "golden", "bounded"])
-        kw = {"method": meth, "args": (sh,)}
-        if meth == "bounded":
-            lo = a + sh + r.choice([-2.0, 0.5])          # sometimes the bound binds
-            kw["bounds"] = (lo, lo + 3.0)
-        elif r.random() < 0.5:
-            kw["bracket"] = (a - 1.0, a + 2.0)
-        if r.random() < 0.5:
-            kw["tol"] = r.choice([1e-3, 1e-6]) if meth != "bounded" else None
-        if r.random() < 0.5:
-            kw["options"] = {"maxiter": r.choice([3, 50])}
-        inp = {"function": "minimize_scalar", "a": a, "b": b, "kw": {k: (list(v) if isinstance(v, tuple) else v) for k, v in kw.items()}}
-        ctx.count("diff:scalar", inp)
+    seen = []
+    f = make_hist_objective(seen)
+    bad = []
+    for i, c in enumerate(h):
+        dt = np_dtype(c["kind"])
+        cx = np.dtype(dt).kind == "c"
+        single = c["kind"] in ("f32", "c64")
+        v0 = np.array(c["x0"], dtype=np.float64)
+        n = v0.size // 2 if cx else v0.size
+        x0 = snp.array(((v0[:n] + 1j * v0[n:]) if cx else v0).reshape(c["shape"]).astype(dt))
+        args = tuple(c["args"])
+        usegrad = c["method"] in gm
         with np.errstate(all="ignore"):
-            d = spo.minimize_scalar(fn, **kw)
+            direct = spo.minimize((lambda v, *a: hist_np(v, a)) if usegrad else (lambda v, *a: hist_np(v, a)[0]), v0,
+                                  args=args, jac=True if usegrad else None, method=c["method"])
+        del seen[:]
+        with patched_spopt() as px:
             try:
-                w = solver.minimize_scalar(fj, **kw)
+                res = solver.minimize(f, x0, args=args, method=c["method"])
             except Exception as e:     # noqa: BLE001
-                ctx.violation("minimize_scalar", "minimize_scalar raises where scipy.optimize.minimize_scalar succeeds",
-                              inp, expected=float(d.x), observed=f"{type(e).__name__}: {e}"[:200], oracle="direct SciPy call")
+                bad.append((i, "minimize raises in a call history where a fresh call succeeds", "result", f"{type(e).__name__}: {str(e)[-160:]}"))
                 continue
-        ok = abs(float(w.x) - float(d.x)) <= 1e-9 * max(1.0, abs(d.x)) and set(w.keys()) == set(d.keys()) \
-            and int(w.nfev) == int(d.nfev) and bool(w.success) == bool(d.success)
-        if not ok:
-            ctx.violation("minimize_scalar", "minimize_scalar result differs from scipy.optimize.minimize_scalar", inp,
-                          expected={"x": float(d.x), "nfev": int(d.nfev)}, observed={"x": float(w.x), "nfev": int(w.nfev)},
-                          oracle="direct SciPy call")
+            d = [cc for nme, cc in px.calls if nme == "minimize"][0]
+        traced = sorted(set(seen))
+        x = res.x
+        if tuple(x.shape) != tuple(c["shape"]) or np.dtype(x.dtype) != np.dtype(dt):
+            bad.append((i, "result of a later call does not have the shape/dtype of its own starting point",
+                        [c["shape"], str(np.dtype(dt))], [list(x.shape), str(x.dtype)]))
+            continue
+        if any(t != str(np.dtype(dt)) for t in traced):
+            bad.append((i, "the objective is traced with a dtype other than that of the current starting point",
+                        str(np.dtype(dt)), traced))
+        # the function SciPy received must evaluate in the precision of this call's x0
+        tol = 1e-4 if single else 1e-11
+        for k in range(2):
+            v = 40.0 + 13.0 * np.arange(v0.size) + (k + 1) * 2.0 ** -20 + np.array(c["x0"]) / 8.0
+            got = d["fun"](v, *args)
+            val, grad = hist_np(v, args)
+            gv = got[0] if isinstance(got, tuple) else got
+            if abs(gv - val) > tol * abs(val):
+                bad.append((i, "the function handed to SciPy does not evaluate the objective in the precision of the current "
+                            "starting point (stale cast from an earlier call)", {"value": val, "rel_tol": tol},
+                            {"value": float(gv), "rel_err": abs(gv - val) / abs(val)}))
+                break
+            if isinstance(got, tuple) and np.max(np.abs(np.asarray(got[1], dtype=np.float64) - grad)) > tol * float(np.max(np.abs(grad))) * 10:
+                bad.append((i, "the gradient handed to SciPy is not evaluated in the precision of the current starting point",
+                            grad.tolist(), np.asarray(got[1]).tolist()))
+                break
+        a = np.asarray(x)
+        xv = (np.concatenate([a.real.ravel(), a.imag.ravel()]) if cx else a.ravel()).astype(np.float64)
+        xtol = 2e-2 if single else (5e-3 if not usegrad else 1e-6)
+        err = float(np.max(np.abs(xv - direct.x) / np.maximum(1.0, np.abs(direct.x))))
+        if not np.all(np.isfinite(xv)) or err > xtol:
+            bad.append((i, "result of a later call differs from the direct SciPy call on its flattened real problem",
+                        direct.x.tolist(), {"x": xv.tolist(), "err": err, "tol": xtol}))
+    return bad
+
+
+def check_history(ctx):
+    gm = gradient_methods()
+    hs = forced_histories(ctx.rng) + [gen_history(ctx.rng) for _ in range(ctx.n(3, 40))]
+    ncalls = 0
+    for h in hs:
+        inp = {"function": "minimize", "history": h}
+        ctx.count("history", inp)
+        ncalls += len(h)
+        for i, what, exp, obs in run_history(h, gm):
+            inp2 = dict(inp, failing_call=i)
+            ctx.violation("minimize", what, inp2, expected=exp, observed=obs,
+                          oracle="fresh-call behaviour: direct SciPy call on the flattened problem + numpy objective in float64")
+    ctx.dist["history:calls"] = ncalls
+    mg = mutable_globals_read()
+    ctx.obligation(not mg, "C18: minimize / minimize_scalar read no mutable module-level state (the Coq model is a pure "
+                   "function of the arguments)", "; ".join(mg))
 
 
 # ------------------------------------------------------------------ split / join / ravel / reshape in Coq
@@ -831,6 +1125,7 @@ def run(ctx: Ctx):
     check_keywords(ctx, tab)
     check_models(ctx)
     check_scalar(ctx)
+    check_history(ctx)
     check_handed_function(ctx)
     check_differential(ctx)
     if not getattr(ctx, "no_proofs", False):
@@ -862,6 +1157,10 @@ def replay(ctx: Ctx, rec):
     if "problem" in inp:
         st, _ = run_differential(inp["problem"], inp["method"], gradient_methods())
         return st == "ok"
+    if "history" in inp:
+        return not run_history(inp["history"], gradient_methods())
+    if unit == "minimize_scalar" and "case" in inp:
+        return scalar_verdict(inp["case"], run_scalar_case(inp["case"])) is None
     if unit == "minimize_scalar":
         import scipy.optimize as spo
         import scico.numpy as snp
